@@ -4,9 +4,12 @@ import TlsModel.Transcript
   Driver for C04 (one request line, one reply line; hex for bytes, `-` = empty).
 
     tail  smaj smin vmaj vmin rnd8                    -> hex of serverRandomTail
+    tailres smaj smin vmaj vmin rnd8                  -> hex of serverRandomTailResumed (abbreviated ServerHello)
     sent  cmaj cmin vmaj vmin tail                    -> proceed | abort:illegal_parameter
     selver minmaj minmin smaj smin chmaj chmin sversions ext -> ok M N | err:protocol_version
              (version lists `3.4,3.3`; ext `none` when the extension is absent, `-` when empty)
+    after minmaj minmin smaj smin chmaj chmin sversions ext suites found(0|1)
+                                                      -> ok M N abbreviated|full | err:<alert>   (serverAfterHello)
     scsv  smaj smin vmaj vmin suites                  -> proceed | abort:inappropriate_fallback
     wire  suites flag                                 -> suites on the wire
     offer cmaj cmin cversions                         -> M N ext
@@ -135,6 +138,8 @@ def natsOut (l : List Nat) : String := if l.isEmpty then "-" else ",".intercalat
 def handle : List String → Option String
   | ["tail", sa, sb, va, vb, rnd] => do
     some (hexOut (serverRandomTail (← parseVer sa sb) (← parseVer va vb) (← ofHex rnd)))
+  | ["tailres", sa, sb, va, vb, rnd] => do
+    some (hexOut (serverRandomTailResumed (← parseVer sa sb) (← parseVer va vb) (← ofHex rnd)))
   | ["sent", ca, cb, va, vb, tail] => do
     some (verdictName (clientChecksSentinel (← parseVer ca cb) (← parseVer va vb) (← ofHex tail)))
   | ["selver", na, nb, sa, sb, ca, cb, svs, ext] => do
@@ -142,6 +147,14 @@ def handle : List String → Option String
     match serverSelectVersion (← parseVerList svs) (← parseVer na nb) (← parseVer sa sb) (← parseVer ca cb) ext with
     | .ok v => some s!"ok {v.1} {v.2}"
     | .error _ => some "err:protocol_version"
+  | ["after", na, nb, sa, sb, ca, cb, svs, ext, suites, found] => do
+    let ext ← if ext == "none" then some none else (parseVerList ext).map some
+    match serverAfterHello (← parseVerList svs) (← parseVer na nb) (← parseVer sa sb) (← parseVer ca cb) ext
+        (← parseNatList suites) (found == "1") with
+    | .ok (v, p) => some s!"ok {v.1} {v.2} {if p == .abbreviated then "abbreviated" else "full"}"
+    | .error .protocolVersion => some "err:protocol_version"
+    | .error .inappropriateFallback => some "err:inappropriate_fallback"
+    | .error .illegalParameter => some "err:illegal_parameter"
   | ["scsv", sa, sb, va, vb, suites] => do
     some (verdictName (serverChecksScsv (← parseVer sa sb) (← parseVer va vb) (← parseNatList suites)))
   | ["wire", suites, flag] => do
